@@ -2,6 +2,7 @@ package c18
 
 import (
 	"bytes"
+	"crypto/sha256"
 	"fmt"
 	"testing"
 
@@ -31,6 +32,7 @@ type reqCase struct {
 	Pos      int    // position selector for byte-level alterations
 	Bit      int
 	OtherKey int
+	Craft    int // 0: the named provider is a pool key's ID; 1..4: an ID crafted from the signer's own public key that is not its peer ID
 }
 
 var validAddrs = []string{"/ip4/8.8.8.8/tcp/3003", "/ip6/2606:4700::1/tcp/443/https", "/dns4/provider.example.com/tcp/80/http", "/ip4/1.2.3.4/udp/4001/quic-v1", "/ip4/10.0.0.1/tcp/1"}
@@ -42,6 +44,9 @@ func genReq(t *rapid.T) reqCase {
 		c.Signer = gen.KeyIdx().Draw(t, "signer")
 	} else {
 		c.Signer = c.Provider
+	}
+	if rapid.IntRange(0, 5).Draw(t, "crafted") == 0 {
+		c.Craft = rapid.IntRange(1, 4).Draw(t, "craft")
 	}
 	c.MH = gen.Multihash().Draw(t, "mh")
 	c.CtxID = gen.Bytes(0, 64).Draw(t, "ctx")
@@ -101,11 +106,41 @@ func sameEnvelope(a, b []byte) (same bool, parsed bool) {
 	return keySame && bytes.Equal(ea.PayloadType, eb.PayloadType) && bytes.Equal(ea.Payload, eb.Payload) && bytes.Equal(ea.Signature, eb.Signature), true
 }
 
+// craftID derives, from the signer's own public key, peer IDs that are not the signer's peer ID: the named
+// provider then differs from the signer although the two are related.
+func craftID(k gen.Key, kind int) peer.ID {
+	pub, _ := ic.MarshalPublicKey(k.Priv.GetPublic())
+	sum := sha256.Sum256(pub)
+	var mh multihash.Multihash
+	switch kind {
+	case 1: // sha2-256 multihash of the key (the peer ID of large keys; for small keys the ID is the identity form)
+		mh, _ = multihash.Encode(sum[:], multihash.SHA2_256)
+	case 2: // the same digest labelled with another 256-bit hash function
+		mh, _ = multihash.Encode(sum[:], multihash.SHA3_256)
+	case 3: // the digest wrapped as an identity multihash
+		mh, _ = multihash.Encode(sum[:], multihash.IDENTITY)
+	default: // identity multihash of the key (the peer ID of small keys; for large keys the ID is the sha2-256 form)
+		mh, _ = multihash.Encode(pub, multihash.IDENTITY)
+	}
+	id := peer.ID(mh)
+	if id == k.ID {
+		// this form is the signer's real ID for this key type: use the digest under blake2b-256 instead
+		mh, _ = multihash.Encode(sum[:], multihash.BLAKE2B_MIN+31)
+		id = peer.ID(mh)
+	}
+	return id
+}
+
 func runReq(c reqCase) pbt.Result {
 	keys := gen.Keys()
 	prov, signer := keys[c.Provider], keys[c.Signer]
 	res := pbt.Result{Classes: []string{"kind=" + c.Kind, "alter=" + c.Alter, "signer=" + signer.Type}}
-	foreignSigner := prov.ID != signer.ID
+	provID := prov.ID
+	if c.Craft != 0 {
+		provID = craftID(signer, c.Craft)
+		res.Classes = append(res.Classes, "crafted-provider-id")
+	}
+	foreignSigner := provID != signer.ID
 	if foreignSigner {
 		res.Classes = append(res.Classes, "foreign-signer")
 	}
@@ -114,9 +149,9 @@ func runReq(c reqCase) pbt.Result {
 	var data []byte
 	var err error
 	if c.Kind == "ingest" {
-		data, err = model.MakeIngestRequest(prov.ID, signer.Priv, multihash.Multihash(c.MH), c.CtxID, c.Metadata, c.Addrs)
+		data, err = model.MakeIngestRequest(provID, signer.Priv, multihash.Multihash(c.MH), c.CtxID, c.Metadata, c.Addrs)
 	} else {
-		data, err = model.MakeRegisterRequest(prov.ID, signer.Priv, c.Addrs)
+		data, err = model.MakeRegisterRequest(provID, signer.Priv, c.Addrs)
 	}
 	if err != nil {
 		return merge(res, pbt.Failf("Make%sRequest: %v", c.Kind, err))
@@ -133,10 +168,10 @@ func runReq(c reqCase) pbt.Result {
 		// same record, same payload type, sealed for a different domain
 		var rec record.Record
 		if c.Kind == "ingest" {
-			rec = &model.IngestRequest{Multihash: c.MH, ProviderID: prov.ID, ContextID: c.CtxID, Metadata: c.Metadata, Addrs: c.Addrs, Seq: 7}
+			rec = &model.IngestRequest{Multihash: c.MH, ProviderID: provID, ContextID: c.CtxID, Metadata: c.Metadata, Addrs: c.Addrs, Seq: 7}
 		} else {
 			pr := peer.NewPeerRecord()
-			pr.PeerID = prov.ID
+			pr.PeerID = provID
 			for _, a := range c.Addrs {
 				pr.Addrs = append(pr.Addrs, multiaddr.StringCast(a))
 			}
@@ -159,10 +194,10 @@ func runReq(c reqCase) pbt.Result {
 		// same record, right domain, validly signed, but sealed with another payload type
 		var rec record.Record
 		if c.Kind == "ingest" {
-			rec = &model.IngestRequest{Multihash: c.MH, ProviderID: prov.ID, ContextID: c.CtxID, Metadata: c.Metadata, Addrs: c.Addrs, Seq: 7}
+			rec = &model.IngestRequest{Multihash: c.MH, ProviderID: provID, ContextID: c.CtxID, Metadata: c.Metadata, Addrs: c.Addrs, Seq: 7}
 		} else {
 			pr := peer.NewPeerRecord()
-			pr.PeerID = prov.ID
+			pr.PeerID = provID
 			for _, a := range c.Addrs {
 				pr.Addrs = append(pr.Addrs, multiaddr.StringCast(a))
 			}
@@ -233,7 +268,7 @@ func runReq(c reqCase) pbt.Result {
 	}
 	if accepted != wantAccept {
 		return merge(res, pbt.Failf("Read%sRequest: accepted=%v (err %v), want accepted=%v; request kind %s naming provider %s (%s) signed by %s (%s), alteration %s (really altered: %v)",
-			feedTo, accepted, rerr, wantAccept, c.Kind, prov.ID, prov.Type, signer.ID, signer.Type, c.Alter, altered))
+			feedTo, accepted, rerr, wantAccept, c.Kind, provID, prov.Type, signer.ID, signer.Type, c.Alter, altered))
 	}
 	if !accepted {
 		if gotIngest != nil || gotReg != nil {
@@ -244,13 +279,13 @@ func runReq(c reqCase) pbt.Result {
 	res.Classes = append(res.Classes, "accepted")
 	if c.Kind == "ingest" {
 		g := gotIngest
-		if g == nil || !bytes.Equal(g.Multihash, c.MH) || g.ProviderID != prov.ID || !bytes.Equal(g.ContextID, c.CtxID) || !bytes.Equal(g.Metadata, c.Metadata) || !sameStrings(g.Addrs, c.Addrs) {
-			return merge(res, pbt.Failf("ReadIngestRequest returned %+v, built from mh=%x provider=%s ctx=%x md=%x addrs=%q", g, c.MH, prov.ID, c.CtxID, c.Metadata, c.Addrs))
+		if g == nil || !bytes.Equal(g.Multihash, c.MH) || g.ProviderID != provID || !bytes.Equal(g.ContextID, c.CtxID) || !bytes.Equal(g.Metadata, c.Metadata) || !sameStrings(g.Addrs, c.Addrs) {
+			return merge(res, pbt.Failf("ReadIngestRequest returned %+v, built from mh=%x provider=%s ctx=%x md=%x addrs=%q", g, c.MH, provID, c.CtxID, c.Metadata, c.Addrs))
 		}
 	} else {
 		g := gotReg
-		if g == nil || g.PeerID != prov.ID || len(g.Addrs) != len(c.Addrs) {
-			return merge(res, pbt.Failf("ReadRegisterRequest returned %+v, built from provider=%s addrs=%q", g, prov.ID, c.Addrs))
+		if g == nil || g.PeerID != provID || len(g.Addrs) != len(c.Addrs) {
+			return merge(res, pbt.Failf("ReadRegisterRequest returned %+v, built from provider=%s addrs=%q", g, provID, c.Addrs))
 		}
 		for i, a := range c.Addrs {
 			if !g.Addrs[i].Equal(multiaddr.StringCast(a)) {
